@@ -189,6 +189,15 @@ func (c *V2) Do(op Op) (out Outcome) {
 		if op.RetCCF {
 			in.ReturnValuesOnConditionCheckFailure = v2types.ReturnValuesOnConditionCheckFailureAllOld
 		}
+		for a, v := range op.Expected {
+			if in.Expected == nil {
+				in.Expected = map[string]v2types.ExpectedAttributeValue{}
+			}
+			in.Expected[a] = v2types.ExpectedAttributeValue{Value: ItemToV2(val.Item{"x": v})["x"]}
+		}
+		if op.RetVal != "" {
+			in.ReturnValues = v2types.ReturnValue(op.RetVal)
+		}
 		_, err := c.C.PutItem(ctx, in)
 		return fin(err)
 	case OpGet:
@@ -196,6 +205,8 @@ func (c *V2) Do(op Op) (out Outcome) {
 		in.AttributesToGet = op.AttrsToGet
 		if op.Consistent {
 			in.ConsistentRead = aws.Bool(true)
+		} else if op.ConsistentFalse {
+			in.ConsistentRead = aws.Bool(false)
 		}
 		res, err := c.C.GetItem(ctx, in)
 		o := fin(err)
@@ -212,6 +223,12 @@ func (c *V2) Do(op Op) (out Outcome) {
 			ConditionExpression: condExpr(op), ExpressionAttributeNames: op.Names, ExpressionAttributeValues: ItemToV2(op.Values)}
 		if op.RetCCF {
 			in.ReturnValuesOnConditionCheckFailure = v2types.ReturnValuesOnConditionCheckFailureAllOld
+		}
+		for a, v := range op.Expected {
+			if in.Expected == nil {
+				in.Expected = map[string]v2types.ExpectedAttributeValue{}
+			}
+			in.Expected[a] = v2types.ExpectedAttributeValue{Value: ItemToV2(val.Item{"x": v})["x"]}
 		}
 		res, err := c.C.UpdateItem(ctx, in)
 		o := fin(err)
@@ -231,6 +248,15 @@ func (c *V2) Do(op Op) (out Outcome) {
 		}
 		if op.RetCCF {
 			in.ReturnValuesOnConditionCheckFailure = v2types.ReturnValuesOnConditionCheckFailureAllOld
+		}
+		if op.RetVal != "" {
+			in.ReturnValues = v2types.ReturnValue(op.RetVal)
+		}
+		for a, v := range op.Expected {
+			if in.Expected == nil {
+				in.Expected = map[string]v2types.ExpectedAttributeValue{}
+			}
+			in.Expected[a] = v2types.ExpectedAttributeValue{Value: ItemToV2(val.Item{"x": v})["x"]}
 		}
 		res, err := c.C.DeleteItem(ctx, in)
 		o := fin(err)
@@ -252,6 +278,8 @@ func (c *V2) Do(op Op) (out Outcome) {
 		in.AttributesToGet = op.AttrsToGet
 		if op.Consistent {
 			in.ConsistentRead = aws.Bool(true)
+		} else if op.ConsistentFalse {
+			in.ConsistentRead = aws.Bool(false)
 		}
 		in.Select = v2types.Select(op.Select)
 		if op.Limit > 0 {
@@ -280,6 +308,8 @@ func (c *V2) Do(op Op) (out Outcome) {
 		in.AttributesToGet = op.AttrsToGet
 		if op.Consistent {
 			in.ConsistentRead = aws.Bool(true)
+		} else if op.ConsistentFalse {
+			in.ConsistentRead = aws.Bool(false)
 		}
 		in.Select = v2types.Select(op.Select)
 		if op.Limit > 0 {
@@ -432,6 +462,13 @@ func (c *V2) Do(op Op) (out Outcome) {
 		return fin(v2client.AddIndex(ctx, c.C, op.Table, op.Ix.Name, op.Ix.Hash, op.Ix.Range))
 	case OpClearTable:
 		return fin(v2client.ClearTable(c.C, op.Table))
+	case OpSetMetrics:
+		m := map[string][]v2types.ItemCollectionMetrics{}
+		if op.Table != "" {
+			m[op.Table] = []v2types.ItemCollectionMetrics{{SizeEstimateRangeGB: []float64{0}}}
+		}
+		v2client.SetItemCollectionMetrics(c.C, m)
+		return Outcome{Class: ClsOK}
 	case OpEmulate:
 		v2client.EmulateFailure(c.C, v2client.FailureCondition(op.Fail))
 		return Outcome{Class: ClsOK}
